@@ -25,7 +25,7 @@ func init() { register(c11{}) }
 func (c11) ID() string    { return "C11" }
 func (c11) Level() string { return "exploration" }
 func (c11) Rule() string {
-	return "packets of the C01 domain, biased towards CONNECT with 2..6 will properties and SUBSCRIBE/SUBACK/UNSUBACK (the encoders that range over maps); per packet 16 (quick) / 64 (thorough) encodings with a random interleaving of String, Dump, WellFormed and a full accessor sweep in between: all encodings byte-identical, accessor snapshot unchanged after every operation. The same seeded packets are encoded again in 3 (quick) / 8 (thorough) sets of separate worker processes (other map hash seeds) and the SHA-256 digests compared per packet. distinct = (packet signature, interleaving of read-only operations); non-trivial = at least one optional field present"
+	return "packets of the C01 domain, biased towards CONNECT with 2..6 will properties and SUBSCRIBE/SUBACK/UNSUBACK (the encoders that range over maps); per packet 16 (quick) / 64 (thorough) encodings with a random interleaving of String, Dump, WellFormed, a full accessor sweep and the decoding of unrelated frames elsewhere in the program in between: all encodings byte-identical, accessor snapshot unchanged after every operation. The same seeded packets are encoded again in 3 (quick) / 8 (thorough) sets of separate worker processes (other map hash seeds) and the SHA-256 digests compared per packet. distinct = (packet signature, interleaving of read-only operations); non-trivial = at least one optional field present"
 }
 func (c11) Assumptions() []string {
 	return []string{"C01 domain", "Dump writes to a harness-owned buffer; WellFormed is called where the packet type has it"}
@@ -118,6 +118,13 @@ func (c11) Run(c *run.Ctx, phase, idx int) {
 		// 0..3 read-only operations, then an encoding
 		for k := r.Intn(4); k > 0; k-- {
 			op := r.Intn(4)
+			if r.Chance(1, 8) {
+				// something else happens in the program: an unrelated frame is decoded
+				noise(r)
+				ops = append(ops, 'N')
+				c.Eval(1)
+				continue
+			}
 			ops = append(ops, "SDWA"[op])
 			name := ""
 			pan := mon.Guard(func() {
@@ -180,7 +187,7 @@ func (c11) Run(c *run.Ctx, phase, idx int) {
 	c.Count("types", T, 1)
 	c.Count("encodings-per-packet", strconv.Itoa(reps+1), 1)
 	if c.WantSample() && nontriv {
-		c.Sample(sampleOf(a, b0, map[string]interface{}{"ops": string(ops), "legend": "S=String D=Dump W=WellFormed A=accessor sweep w=WriteTo"}))
+		c.Sample(sampleOf(a, b0, map[string]interface{}{"ops": string(ops), "legend": "S=String D=Dump W=WellFormed A=accessor sweep N=an unrelated frame is decoded elsewhere w=WriteTo"}))
 	}
 }
 
